@@ -2,6 +2,7 @@ import copy
 from props.shapes import *
 from props.c07 import enc_ob
 from props.c05 import l1_ob as xor_l1_ob
+from props.xorsets import chunks
 
 def leak(ob, tag):
     ob = copy.deepcopy(ob)
@@ -36,10 +37,12 @@ def plan(ctx):
     obs += [leak(o, "leak") for o in p13(ctx)["obs"] if o.id.startswith(("args-decode", "args-encode", "refuse-xor4_3", "cycle-rs1_1", "cycle-xor3_3", "create-box-xor"))]
     obs += [leak(o, "leak") for o in p17(ctx)["obs"] if o.id.startswith(("fail-decode-rs", "fail-init-rs"))]
     # flat-XOR decoder's own allocations (three-data path allocates a scratch parity buffer)
-    for (k, m, hd) in [(6, 6, 4), (10, 5, 4)] + ([(12, 6, 4), (20, 6, 4)] if thorough else []):
-        n = k + m
-        sets = [(0, 1, 2), (1, 3, 5), (0, k - 1, k), (k - 3, k - 2, k - 1)]
-        obs.append(leak(xor_l1_ob(k, m, hd, sets, b=4, tag="xor3d"), "leak"))
+    import itertools
+    for (k, m, hd) in [(6, 5, 4), (6, 6, 4)] + ([(8, 5, 4), (10, 5, 4), (12, 6, 4)] if thorough else []):
+        triples = list(itertools.combinations(range(k), 3))       # every three-data pattern (the scratch-buffer path is taken only by some of them)
+        mixed = [(0, 1, k), (1, k, k + 1), (0,), (k,)]
+        for i, ch in enumerate(chunks(triples + mixed, 12)):
+            obs.append(leak(xor_l1_ob(k, m, hd, ch, b=4, tag="xor3d", idx=i), "leak"))
     return {"obs": obs,
             "assumptions": ["histories of <= 4 API calls per query from a fresh instance (the statement's 300-call histories are outside reach): per-call reading - each call returns the heap to its prior state plus what it hands to the caller, and the cleanup call releases exactly that",
                             "CBMC --memory-leak-check plus its double-free / use-after-free / free-of-non-heap checks; allocation never fails"],
